@@ -999,6 +999,7 @@ class HStep(Step):
                 nb._ctl.armed = True
                 nb._ctl.drain()
                 nb._ctl.relocate_at = {}
+                nb._sim_restored = True
                 nb._sim_allocs = list(o.buf._sim_allocs)
                 w.bufs.append(nb)
                 if hasattr(nb.context, "_sim_plan"):
